@@ -544,6 +544,19 @@ impl Walrus {
                                         );
                                     }
                                 }
+                            } else {
+                                // The persisted tail block was never written: every block of
+                                // this topic before it had been consumed (see read_next).
+                                let upto = info
+                                    .chain
+                                    .iter()
+                                    .position(|b| b.id > tail_block_id)
+                                    .unwrap_or(info.chain.len());
+                                if let Some(per_block) = topic_block_entry_counts.get(topic) {
+                                    consumed_entries = consumed_entries.saturating_add(
+                                        per_block.iter().take(upto).copied().sum::<u64>(),
+                                    );
+                                }
                             }
                         } else {
                             let block_idx = (pos.cur_block_idx as usize).min(info.chain.len());
